@@ -118,6 +118,7 @@ def cases(tier, seed):
             if all(x >= n for x, n in zip(shape, need)):
                 for usebuf in (False, True):
                     out.append({'d': 4, 'fam': 'lop-phys', 'layouts': dict(PHYS), 'nprocs': nprocs, 'shape': list(shape), 'dtype': 'float64', 'buf': usebuf, 'cost': 60})
+                    out.append({'d': 4, 'fam': 'lop-phys', 'layouts': dict(PHYS), 'nprocs': nprocs, 'shape': list(shape), 'dtype': 'complex128', 'buf': usebuf, 'oversize': 5, 'cost': 60})
     return out
 
 
@@ -144,7 +145,7 @@ def run_case(case):
     def do_item(h, pair):
         a, b = pair
         la, lb = h.getLayout(a), h.getLayout(b)
-        n = h.bufferSize
+        n = h.bufferSize + int(case.get('oversize', 0))      # arrays may be larger than bufferSize (transpose only requires >=)
         src = np.full(n, P, dtype=dtype)
         dst = np.full(n, P, dtype=dtype)
         buf = np.full(n, P, dtype=dtype) if usebuf else None
@@ -156,7 +157,7 @@ def run_case(case):
             probs.append('dest')
         if usebuf and not lay.same(src[:la.size].reshape(la.shape), blk):
             probs.append('source-not-intact')
-        if la.size > n or lb.size > n:
+        if la.size > h.bufferSize or lb.size > h.bufferSize:
             probs.append('bufferSize-too-small')
         return probs
 
